@@ -81,7 +81,9 @@ def op_strategy(draw):
         op.update(mode=draw(st.sampled_from(["seq", "seq", "concurrent", "concurrent"])),
                   perm=draw(st.lists(st.integers(0, 40), max_size=12)),
                   choices=draw(st.lists(st.integers(0, 7), max_size=120)),
-                  dup=draw(st.sampled_from([None, None, None, "dup", "stale"])))
+                  dup=draw(st.sampled_from([None, None, None, "dup", "stale"])),
+                  burst=draw(st.sampled_from([None, None, {"sel": draw(st.integers(0, 20)), "k": draw(st.integers(2, 3)),
+                                                           "amount": draw(st.integers(0, 10 ** 6))}])))
     return op
 
 
@@ -397,11 +399,48 @@ async def run_async(case, out):
                     dbo.run = gate.wrap(orig)
                     net.gate = gate
                     tasks = []
+                    burst = op.get("burst")
+                    burst_addr = None
                     try:
                         for i, (addr, s) in enumerate(order):
                             t = asyncio.ensure_future(ledger.update_history(addr, s))
                             gate.task_of[t] = i
                             tasks.append(t)
+                        if burst and rounds == 1:
+                            # the server's history of one address keeps growing while its notifications are being processed:
+                            # k further notifications for the same address, each sent right after another transaction arrived
+                            burst_addr, _ = order[burst["sel"] % len(order)]
+                            bh = ledger.address_to_hash160(burst_addr)
+                            k = burst["k"]
+                            events = [asyncio.Event() for _ in range(k)]
+                            statuses = [None] * k
+
+                            async def notifier(j):
+                                await events[j].wait()
+                                return await ledger.update_history(burst_addr, statuses[j])
+
+                            async def noop():
+                                return None
+
+                            async def grower():
+                                for j in range(k):
+                                    await gate.gated_call(noop)
+                                    amt = 1000 + burst["amount"] + j
+                                    assemble([external_input(amt * 3 + 10000)], [],
+                                             [(Output.pay_pubkey_hash(amt, bh), (amt, "pay", bh))], {})
+                                    statuses[j] = chain.status(bh)
+                                    events[j].set()
+                            if bh in owner:
+                                for j in range(k):
+                                    t = asyncio.ensure_future(notifier(j))
+                                    gate.task_of[t] = len(order) + j
+                                    tasks.append(t)
+                                t = asyncio.ensure_future(grower())
+                                gate.task_of[t] = len(order) + k
+                                tasks.append(t)
+                                out.label("burst_same_address")
+                            else:
+                                burst_addr = None
                         await gate.drive(tasks)
                     finally:
                         dbo.run = orig
@@ -410,6 +449,8 @@ async def run_async(case, out):
                         t.result()
                     for addr, s in order:
                         delivered[addr] = s
+                    if burst_addr is not None:
+                        delivered[burst_addr] = chain.status(ledger.address_to_hash160(burst_addr))
                     out.label("concurrent", "switches:%s" % ("0" if gate.switches == 0 else ">=1"))
                 await settle(env)
                 if env.bg_errors:
@@ -561,5 +602,5 @@ def run_case(case):
 PARTS = [
     Part("sync", case_strategy, run_case, 300, 3000, quick_shards=8, thorough_shards=16,
          essential=("concurrent", "spend", "claim", "support", "abandon", "mine", "fund_gap3", "spend_unconfirmed_parent",
-                    "third:multisig", "third:random", "single_key_account")),
+                    "third:multisig", "third:random", "single_key_account", "burst_same_address")),
 ]
